@@ -50,6 +50,28 @@ on clock threads.
   must leave the pending wake-up alone; no wake-up may come for a task at
   rest, none may be missing.  NRT and RT programs alike.  play_next_bar is
   also one of the ways the one-shot children are played.
+* reference beats at sub-musical distances from grid / bar lines (round 9,
+  'near' / 'rtn' shards, vf/c12_near.py, oracle vf/c12_exact.py; class: the
+  reference beat - an explicit argument or the current beat of the calling
+  routine - lies ON a line, 1 ... 16 ulp or 1e-15 ... 1e-6 beats BEFORE or
+  AFTER it, on fresh clocks and after meter changes at fractional beats, at
+  small and large (1e12) beat counts, with whole, fractional, tiny (1e-9) and
+  huge (1e9) quants and phases 0, fractions, tiny, next to +-quant): 'never
+  before the reference beat' and 'the earliest such beat' are decided in exact
+  rational arithmetic (fractions.Fraction of the floats passed and of the
+  meter reference the clock publishes) for next_time_on_grid, next_bar,
+  time_to_next_beat, bar, beat_in_bar, beats2bars / bars2beats (also as
+  inverses), for explicit references and - the root routine aims its wake-ups
+  at line + offset and uses the beat it actually woke on - for the current
+  beat; tasks played from such beats by TempoClock.play, Routine.play and
+  play_next_bar (Routine and plain function) must first wake on an exactly
+  admissible line AND where next_time_on_grid / next_bar said in that same
+  wake-up.  The only slack is the evaluation noise of the few float operations
+  (8 ulp of the magnitudes entering the expression; none at all when nothing
+  can be rounded: whole numbers, power-of-two meters with dyadic beats), so a
+  "snap to the line when closer than 1e-9", an epsilon before a ceil / floor,
+  a `<` for a `<=` on the line are all seen, which the 1e-9 tolerance of the
+  model oracle and of the contracts cannot tell from correct answers.
 * real-time 'rtm' shards (vf/c12_race.py): every change of a history stays
   continuous when a second party changes the same map concurrently: routines on
   the clock / on another TempoClock change tempo / beats / etempo during
@@ -85,7 +107,13 @@ RULE = ("seeded programs run by a routine on a real TempoClock: clock created "
         "with 1-2 routines (own clock / another TempoClock) making 100-180 "
         "changes and a plain thread calling etempo / tempo / beats setters; "
         "non-trivial when a plain call took effect after a routine change "
-        "made inside its window")
+        "made inside its window.  near / rtn programs: 1-4 phases of (meter / "
+        "tempo / beats change at a fractional beat, 20-60 queries with "
+        "explicit reference beats = grid or bar line k (|k| up to 1e12 / "
+        "quant) + offset (on the line, +-1..16 ulp, +-1e-15..1e-5.5 beats "
+        "absolute or relative), 2-8 wake-ups aimed at line + offset with 2-6 "
+        "current-beat queries and plays each); non-trivial with >= 10 queries "
+        "and >= 2 aimed wake-ups")
 ASSUMPTIONS = [
     "vf/c12_model.py (affine map, meter reference, grid oracle) is the meaning "
     "of the statement; any whole bar number next to the running bar is "
@@ -106,6 +134,21 @@ ASSUMPTIONS = [
     "task scheduled itself during the wake-up moves it once more; "
     "Routine.play on a playing routine / resume on an unpaused one do nothing "
     "(doc strings)",
+    "near / rtn shards: the library documents no tolerance for the grid "
+    "arithmetic, so vf/c12_exact.py grants only the evaluation noise of the "
+    "expression itself: 8 * 2**-52 * (|reference| + |base_bar_beat| + quant + "
+    "|result| [+ beats_per_bar * (1 + |base_bar|) for bar numbers]) + 1e-300 "
+    "(worst-case analysis < 2.5, measured < 1 such units on 10000 programs); "
+    "a reference closer than that to a line may be answered with either "
+    "neighbouring line; zero when every operation is exact (whole numbers "
+    "below 2**31; power-of-two quant / beats_per_bar with multiples of "
+    "2**-20 resp. 2**-10); for a played task's first wake-up the noise of one "
+    "beats -> seconds -> beats round trip, 8 * 2**-52 * 2 * (max |beat| + "
+    "max tempo * (max |second| + 1)), is added",
+    "near / rtn shards: the meter reference used by the exact oracle is what "
+    "the clock publishes (base_bar_beat, base_bar, beats_per_bar), itself "
+    "compared with the model in the grid / hist shards; fractional, tiny and "
+    "huge quants are inside 'quant >= 0' of the quantifier",
     "a task that raises is logged by the clock and not rescheduled "
     "(documented 'always recover'); only the events after it are judged",
 ]
@@ -149,6 +192,36 @@ MIN_COUNTERS = {
               'play_next_bar_first_wakes_checked': 400,
               'rt_moved_task_wakeups': 50,
               'rt_moved_task_moves_while_pending': 20,
+              'exact_programs_finished': 300,
+              'exact_grid_ref_just_after_line': 800,
+              'exact_grid_ref_just_before_line': 800,
+              'exact_grid_ref_on_line': 600,
+              'exact_grid_tiny_quant': 800, 'exact_grid_huge_quant': 800,
+              'exact_grid_large_beat_count': 4000,
+              'exact_grid_no_rounding_possible_ref_on_line': 150,
+              'exact_next_bar_ref_just_after_line': 600,
+              'exact_next_bar_ref_just_before_line': 600,
+              'exact_next_bar_ref_on_line': 1200,
+              'exact_next_bar_after_meter_change_at_fractional_beat': 5000,
+              'exact_next_bar_no_rounding_possible_ref_on_line': 300,
+              'exact_next_bar_now_ref_just_after_line': 150,
+              'exact_next_bar_now_ref_just_before_line': 150,
+              'exact_next_bar_now_ref_on_line': 300,
+              'exact_grid_now_ref_just_after_line': 200,
+              'exact_grid_now_ref_just_before_line': 200,
+              'exact_bar_now_ref_just_after_line': 70,
+              'exact_bar_now_ref_just_before_line': 70,
+              'exact_ttnb_ref_just_after_line': 60,
+              'exact_ttnb_ref_just_before_line': 60,
+              'exact_bar_conversions_checked': 3000,
+              'exact_play_ref_just_after_line': 100,
+              'exact_play_ref_on_line': 250,
+              'exact_play_next_bar_ref_just_after_line': 50,
+              'exact_play_next_bar_ref_on_line': 150,
+              'rt_exact_programs_finished': 16,
+              'rt_exact_next_bar_checked': 60,
+              'rt_exact_next_bar_now_checked': 40,
+              'rt_exact_play_next_bar_checked': 20,
               'rtm_routine_wakeups': 3000, 'rtm_plain_changes_checked': 1000,
               'rtm_plain_changes_applied_after_a_routine_change_etempo': 40,
               'rtm_plain_changes_applied_after_a_routine_change_tempo': 40,
@@ -170,6 +243,16 @@ MIN_COUNTERS = {
                  'play_next_bar_first_wakes_checked': 20000,
                  'rt_moved_task_wakeups': 5000,
                  'rt_moved_task_moves_while_pending': 2000,
+                 'exact_programs_finished': 1000,
+                 'exact_grid_ref_just_after_line': 4000,
+                 'exact_grid_ref_just_before_line': 4000,
+                 'exact_next_bar_ref_just_after_line': 3000,
+                 'exact_next_bar_ref_just_before_line': 3000,
+                 'exact_next_bar_now_ref_just_after_line': 1200,
+                 'exact_grid_now_ref_just_after_line': 1800,
+                 'exact_play_next_bar_ref_just_after_line': 300,
+                 'exact_play_ref_just_after_line': 600,
+                 'rt_exact_programs_finished': 300,
                  'rtm_plain_changes_checked': 20000,
                  'rtm_plain_changes_applied_after_a_routine_change_etempo': 800,
                  'rtm_plain_changes_applied_after_a_routine_change_tempo': 800,
@@ -208,6 +291,18 @@ def plan(tier, seed):
         shards.append({'name': f'rtm{p}', 'mode': 'rt', 'kind': 'rtm',
                        'first_case': f, 'n': n, 'secs': msecs,
                        'p_yield': 0.25, 'hard_timeout': msecs + 120})
+    # reference beats at sub-musical distances from grid / bar lines, exact
+    # rational oracle (vf/c12_near.py, vf/c12_exact.py)
+    # (thorough: these four start when the rtc / rtm shards have ended)
+    n_near, nparts, nsecs = (600, 2, 25) if tier == 'quick' else (24_000, 3, 170)
+    for p, (f, n) in enumerate(split(n_near, nparts)):
+        shards.append({'name': f'near{p}', 'mode': 'nrt', 'kind': 'near',
+                       'first_case': f, 'n': n, 'secs': nsecs,
+                       'hard_timeout': nsecs + 120})
+    n_rtn, rsecs = (32, 20) if tier == 'quick' else (1200, 170)
+    shards.append({'name': 'rtn0', 'mode': 'rt', 'kind': 'rtn',
+                   'first_case': 0, 'n': n_rtn, 'secs': rsecs,
+                   'hard_timeout': rsecs + 120})
     return shards
 
 
@@ -240,6 +335,11 @@ def run_shard(spec, acc):
         # no contracts either: the sampling is the monitor
         from vf.c12_race import run_rtm
         run_rtm(spec, acc, sc)
+        return
+    if spec['shard']['kind'] in ('near', 'rtn'):
+        # no contracts (their tolerance is 1e-9): the exact oracle decides
+        from vf.c12_near import run_near
+        run_near(spec, acc, sc)
         return
     if os.environ.get('VERIF_C12_NO_CONTRACTS'):
         # mutation sanity of the reference-model layer alone (the run is then
